@@ -50,18 +50,45 @@ package pool
 //@   ensures lock: held(ap.RWMutex) == 0
 //@   ensures unchanged(ap.datas) && unchanged(ap.individual) && unchanged(ap.aggregate)
 
+// Prune(epoch) removes exactly what can no longer be included: data (and its aggregates) with
+// target epoch < previous(epoch), individual votes and per-validator marks of epochs < previous(epoch);
+// everything else stays, unaltered. visited(k): the range loop has already produced key k.
+//@ define prune_min(e int) int = ite(e == 0, 0, e - 1)
 //@ func (ap *AttestationPool) Prune(epoch) 
 //@   property C20 C17
 //@   requires ap != nil && held(ap.RWMutex) == 0
 //@   requires ap_wf(ap.datas, ap.individual, ap.aggregate, ap.aggPerValidator)
 //@   assigns ap.datas, ap.individual, ap.aggregate, ap.aggPerValidator
 //@   ensures lock: held(ap.RWMutex) == 0
+//@   ensures wf: ap_wf(ap.datas, ap.individual, ap.aggregate, ap.aggPerValidator)
+//@   ensures datas: forall r RootK :: {ap.datas[r]} {old(ap.datas[r])} has(ap.datas, r) <==> old(has(ap.datas, r)) && old(ap.datas[r]).Data.Target.Epoch >= prune_min(epoch)
+//@   ensures datas_same: forall r RootK :: {ap.datas[r]} has(ap.datas, r) ==> ap.datas[r] == old(ap.datas[r])
+//@   ensures aggregates: forall r RootK :: {ap.aggregate[r]} {old(ap.aggregate[r])} has(ap.aggregate, r) <==> old(has(ap.aggregate, r)) && !(old(has(ap.datas, r)) && old(ap.datas[r]).Data.Target.Epoch < prune_min(epoch))
+//@   ensures aggregates_same: forall r RootK :: {ap.aggregate[r]} has(ap.aggregate, r) ==> ap.aggregate[r] == old(ap.aggregate[r])
+//@   ensures individual: forall a AssignK :: {ap.individual[a]} {old(ap.individual[a])} has(ap.individual, a) <==> old(has(ap.individual, a)) && a.Epoch >= prune_min(epoch)
+//@   ensures individual_same: forall a AssignK :: {ap.individual[a]} has(ap.individual, a) ==> ap.individual[a] == old(ap.individual[a])
+//@   ensures pervalidator: forall a AssignK :: {ap.aggPerValidator[a]} {old(ap.aggPerValidator[a])} has(ap.aggPerValidator, a) <==> old(has(ap.aggPerValidator, a)) && a.Epoch >= prune_min(epoch)
+//@   ensures pervalidator_same: forall a AssignK :: {ap.aggPerValidator[a]} has(ap.aggPerValidator, a) ==> ap.aggPerValidator[a] == old(ap.aggPerValidator[a])
 //@   loop 1
-//@     invariant !isnil(ap.datas) && !isnil(ap.aggregate) && (forall r RootK :: {ap.datas[r]} has(ap.datas, r) ==> ap.datas[r] != nil)
+//@     invariant !isnil(ap.datas) && !isnil(ap.aggregate)
+//@     invariant sub: forall r RootK :: {ap.datas[r]} has(ap.datas, r) ==> old(has(ap.datas, r)) && ap.datas[r] == old(ap.datas[r]) && ap.datas[r] != nil
+//@     invariant kept: forall r RootK :: {old(ap.datas[r])} old(has(ap.datas, r)) && old(ap.datas[r]).Data.Target.Epoch >= prune_min(epoch) ==> has(ap.datas, r)
+//@     invariant done: forall r RootK :: {visited(r)} visited(r) && has(ap.datas, r) ==> ap.datas[r].Data.Target.Epoch >= prune_min(epoch)
+//@     invariant aggsub: forall r RootK :: {ap.aggregate[r]} has(ap.aggregate, r) ==> old(has(ap.aggregate, r)) && ap.aggregate[r] == old(ap.aggregate[r])
+//@     invariant aggkept: forall r RootK :: {old(ap.aggregate[r])} old(has(ap.aggregate, r)) && !(old(has(ap.datas, r)) && old(ap.datas[r]).Data.Target.Epoch < prune_min(epoch)) ==> has(ap.aggregate, r)
+//@     invariant aggdel: forall r RootK :: {ap.aggregate[r]} old(has(ap.datas, r)) && !has(ap.datas, r) ==> !has(ap.aggregate, r)
+//@     invariant unchanged(ap.individual) && unchanged(ap.aggPerValidator)
 //@   loop 2
 //@     invariant !isnil(ap.individual)
+//@     invariant sub: forall a AssignK :: {ap.individual[a]} has(ap.individual, a) ==> old(has(ap.individual, a)) && ap.individual[a] == old(ap.individual[a])
+//@     invariant kept: forall a AssignK :: {old(ap.individual[a])} old(has(ap.individual, a)) && a.Epoch >= prune_min(epoch) ==> has(ap.individual, a)
+//@     invariant done: forall a AssignK :: {visited(a)} visited(a) && has(ap.individual, a) ==> a.Epoch >= prune_min(epoch)
+//@     invariant unchanged(ap.aggPerValidator)
 //@   loop 3
 //@     invariant !isnil(ap.aggPerValidator)
+//@     invariant sub: forall a AssignK :: {ap.aggPerValidator[a]} has(ap.aggPerValidator, a) ==> old(has(ap.aggPerValidator, a)) && ap.aggPerValidator[a] == old(ap.aggPerValidator[a])
+//@     invariant kept: forall a AssignK :: {old(ap.aggPerValidator[a])} old(has(ap.aggPerValidator, a)) && a.Epoch >= prune_min(epoch) ==> has(ap.aggPerValidator, a)
+//@     invariant done: forall a AssignK :: {visited(a)} visited(a) && has(ap.aggPerValidator, a) ==> a.Epoch >= prune_min(epoch)
 
 // ---------------------------------------------------------------- slashing and exit pools
 
